@@ -90,6 +90,7 @@ func (d *Driver) sendRPC(
 		done <- data
 	}()
 
+	util.VerifYield("nc.rpc.before-wait")
 	timer := time.NewTimer(d.Channel.GetTimeout(op.Timeout))
 
 	select {
